@@ -29,17 +29,26 @@ import (
 
 func init() {
 	register(&Rule{ID: "LEN-json", Min: 10, Run: func(c *load.Ctx, r *report.RuleResult) {
-		runLen(c, r, lenSpec{rel: "formats/json", ctor: "newScanner", typ: "scanner", flag: "allowTrailingNonSpaceCharacters", name: "json"})
+		runLen(c, r, lenSpec{rel: "formats/json", ctor: "newScanner", typ: "scanner", flag: "allowTrailingNonSpaceCharacters", name: "json"}, 2)
 	},
 		Doc: "formats/json Length(): for every reachable (scanner state, RFC 8259 reference state) pair in trailing mode, wherever the scan stops — the first foreign byte directly after the value or after blanks, or end of input — the value Length() holds before trimming blanks lies between the end of the top-level value + 1 and the first foreign byte, so the trimmed result is exactly the length of the value; and a text that is not a complete value yields an error"})
 	register(&Rule{ID: "LEN-schema", Min: 8, Run: func(c *load.Ctx, r *report.RuleResult) {
-		runLen(c, r, lenSpec{rel: "notations/jschema/internal/scanner", ctor: "New", typ: "Scanner", flag: "lengthComputing", name: "schema"})
+		runLen(c, r, lenSpec{rel: "notations/jschema/internal/scanner", ctor: "New", typ: "Scanner", flag: "lengthComputing", name: "schema"}, 2)
 	},
 		Doc: "schema scanner Length() on plain-JSON schemas: same obligation as LEN-json (annotation and comment starters are not foreign bytes)"})
 	register(&Rule{ID: "LEN-enum", Min: 5, Run: func(c *load.Ctx, r *report.RuleResult) {
-		runLen(c, r, lenSpec{rel: "rules/enum", ctor: "newScanner", typ: "scanner", flag: "lengthComputing", name: "enum"})
+		runLen(c, r, lenSpec{rel: "rules/enum", ctor: "newScanner", typ: "scanner", flag: "lengthComputing", name: "enum"}, 2)
 	},
 		Doc: "enum-rule scanner Length() on arrays of scalars: same obligation as LEN-json"})
+	for _, sp := range []lenSpec{
+		{rel: "formats/json", ctor: "newScanner", typ: "scanner", flag: "allowTrailingNonSpaceCharacters", name: "json"},
+		{rel: "notations/jschema/internal/scanner", ctor: "New", typ: "Scanner", flag: "lengthComputing", name: "schema"},
+		{rel: "rules/enum", ctor: "newScanner", typ: "scanner", flag: "lengthComputing", name: "enum"},
+	} {
+		sp := sp
+		register(&Rule{ID: "LEN-" + sp.name + "-deep", Min: 5, Thorough: true, Run: func(c *load.Ctx, r *report.RuleResult) { runLen(c, r, sp, 4) },
+			Doc: "LEN-" + sp.name + " with nesting bound 4"})
+	}
 	register(&Rule{ID: "LEN-trim", Min: 3, Run: runLenTrim,
 		Doc: "the three Length() methods end by stepping back over trailing blanks: with the pre-trim value P, the byte tested is data[P-1], a blank byte decrements P and the test repeats, a non-blank byte (or P = 0) ends the loop and P is returned"})
 }
@@ -415,7 +424,7 @@ type lenState struct {
 	path  string
 }
 
-func runLen(c *load.Ctx, r *report.RuleResult, sp lenSpec) {
+func runLen(c *load.Ctx, r *report.RuleResult, sp lenSpec, maxDepth int) {
 	m, err := newScanModel(c, sp.rel, sp.ctor, sp.typ, func(m *scanModel, in *pe.Interp, s *pe.Ptr) {
 		in.Store(in.FieldPtr(s, sp.flag), true)
 	})
@@ -437,7 +446,6 @@ func runLen(c *load.Ctx, r *report.RuleResult, sp lenSpec) {
 		return
 	}
 	r.OK("summary|"+sp.rel+"."+sp.typ+".Length", "", "what Length() holds before trimming, read off its own code: "+sum.String())
-	const maxDepth = 2
 	// apply processes the lexemes delivered on one step; stop reports that the end-top marker was seen
 	apply := func(g *lenGhost, evs []spec.Ev, atEOF bool) (stop bool, problem string) {
 		for _, e := range evs {
@@ -654,7 +662,7 @@ func runLen(c *load.Ctx, r *report.RuleResult, sp lenSpec) {
 	for _, k := range sortedKeys(okClass) {
 		r.OK("stop|"+k, "", fmt.Sprintf("%d state(s): the pre-trim length lies between the end of the value + 1 and the first foreign byte", okClass[k]))
 	}
-	r.OK("product|depth<=2", c.Pos(m.next.Pos()), fmt.Sprintf("%d (scanner state, reference state, ghost) triples, %d transitions, %d stops checked, %d interpreter runs", pairs, transitions, stops, m.runs))
+	r.OK(fmt.Sprintf("product|depth<=%d", maxDepth), c.Pos(m.next.Pos()), fmt.Sprintf("%d (scanner state, reference state, ghost) triples, %d transitions, %d stops checked, %d interpreter runs", pairs, transitions, stops, m.runs))
 	r.Stat("triples", pairs)
 	r.Stat("transitions", transitions)
 	r.Stat("stops", stops)
